@@ -76,15 +76,18 @@ inline void on_abort_hook(char const* m)
     if (!g.in_case) fatal_outside(m, 0, 0);
     g.in_case = 0;
     g.sig = -1;
+    g.pc = 0;
     strncpy(g.msg, m, sizeof g.msg - 1);
     g.msg[sizeof g.msg - 1] = 0;
     siglongjmp(g.env, 1);
 }
 inline void on_tick()
 {
-    if (g.tick_budget && ++g.ticks > g.tick_budget && g.in_case) {
+    g.ticks = g.ticks + 1;
+    if (g.tick_budget && g.ticks > g.tick_budget && g.in_case) {
         g.in_case = 0;
         g.sig = -2;
+        g.pc = 0;
         siglongjmp(g.env, 1);
     }
 }
@@ -373,6 +376,13 @@ std::vector<T> all_values()
     std::vector<T> v;
     for (long x = (long)tmin<T>(); x <= (long)tmax<T>(); ++x) v.push_back((T)x);
     return v;
+}
+// all values when the type has at most MaxExh bits, else the boundary lattice
+template<class T, int MaxExh = 8>
+std::vector<T> values_for()
+{
+    if constexpr (width_of<T> <= MaxExh) return all_values<T>();
+    else return lattice<T>();
 }
 // log-uniform magnitude, random sign
 template<class T>
